@@ -25,6 +25,8 @@ pub mod c14;
 pub mod c18;
 #[cfg(feature = "std")]
 pub mod c20;
+#[cfg(feature = "std")]
+pub mod text;
 
 pub fn run(ctx: &Ctx) -> i32 {
     let verdict: Verdict = match ctx.prop.as_str() {
@@ -81,6 +83,9 @@ pub fn replay_case(prop: &str, sub: &str, case: Value) -> Result<(), String> {
         "C18" => c18::replay(sub, case),
         #[cfg(feature = "std")]
         "C20" => c20::replay(sub, case),
+        // C19 is decided by the program-generation engine; its text-arguments sub-check lives here
+        #[cfg(feature = "std")]
+        "C19" if sub == "text-arguments" => text::replay(case, text::Oracle::Rendering),
         other => Err(format!("HARNESS: no replay for property {other}")),
     }
 }
@@ -287,7 +292,8 @@ pub fn variant_reports(ctx: &Ctx, variants: &[&str]) -> Vec<vcore::SubReport> {
                 for line in stdout.lines() {
                     if let Ok(val) = serde_json::from_str::<Value>(line) {
                         if let Some(mut r) = vcore::SubReport::from_json(&val) {
-                            r.name = format!("{name}:{}", r.name);
+                            let renamed = format!("{name}:{}", r.name);
+                            r.rename(renamed);
                             out.push(r);
                             found = true;
                         }
@@ -313,6 +319,13 @@ pub fn variant_reports(ctx: &Ctx, variants: &[&str]) -> Vec<vcore::SubReport> {
 pub fn print_sub_reports(ctx: &Ctx) {
     if crate::variant() == "nostd-nomutex" {
         crate::model::NO_MUTEX.store(true, std::sync::atomic::Ordering::Relaxed);
+    }
+    #[cfg(feature = "std")]
+    if ctx.prop == "C19" {
+        // pulled by `progen C19` (vcore::sub_report_from)
+        let s = text::sub_report(ctx, text::Oracle::Rendering);
+        println!("{}", serde_json::to_string(&s.to_json()).unwrap());
+        return;
     }
     let verdict: Verdict = match ctx.prop.as_str() {
         "C01" => c01::run(ctx),
